@@ -222,7 +222,7 @@ PROPS = {
     "C07": {
         "module": "Sfv.Props.C07",
         "tables": ["tables_header"],
-        "suites": [cuts(1, 4), extras(2, 10)],
+        "suites": [cuts(1, 4), extras(2, 10), dict(cwprog(60, 600), direct_only=True)],
         "oracle": ["C07"],
     },
 }
